@@ -253,6 +253,9 @@ def gen_response(rng, ident, truth, close_ok):
     else:
         tail += body
     line = proto + b" %d" % status + (b" " + reason if reason or rng.random() < 0.5 else b"") + b"\r\n"
+    if rng.random() < 0.15:
+        # an interim response first: nothing of it may show in the final one (protocol, status, reason phrase, header fields)
+        line = rng.choice([b"HTTP/1.1 100 Continue\r\n\r\n", b"HTTP/1.0 100 Go On Then\r\nX-Interim: i%dz\r\n\r\n" % ident, b"HTTP/1.1 100\r\n\r\n"]) + line
     truth.update({"res_proto": proto, "status": status, "reason": reason, "res_body": body})
     return Msg(line, fields, tail, trailers)
 
